@@ -683,9 +683,9 @@ class HistogramBase(abc.ABC):
         if self.shape != other.shape:
             return False
         elif self.ndim == 1:
-            return np.allclose(self.bins, other.bins)
+            return np.array_equal(self.bins, other.bins)
         for i in range(self.ndim):
-            if not np.allclose(self.bins[i], other.bins[i]):
+            if not np.array_equal(self.bins[i], other.bins[i]):
                 return False
         return True
 
